@@ -36,6 +36,7 @@ Definition ok_C05 (case obs: list N) : list N :=
                   else if p_err p then [12]                                (* error packet accepted *)
                   else if negb (match code_of p with Some c => c =? code k | None => false end) then [13]   (* wrong event code accepted *)
                   else if negb (length (p_data p) =? layout_len e)%nat then [14]   (* not the length the layout requires *)
+                  else if tag_unknown k p then [16]                        (* unknown variant tag / non-boolean byte materialised *)
                   else match parse_dobs r2 with
                        | Some (DVal fs2, []) => if list_eqb fs fs2 then [] else [15]   (* not stable under re-encoding *)
                        | _ => [15]
@@ -116,11 +117,12 @@ Definition run_AMB (case: list N) : list N :=
                  | None => BAD end
   | _ => BAD
   end.
-Definition view_C12 (case obs: list N) : list N := obs.
+(* a decoder that crashes has not decoded the packet successfully: for C12 that is a rejection (the crash itself is C05's business) *)
+Definition acc_only (obs: list N) : list N := map (fun x => if x =? 1 then 1 else 0) obs.
+Definition view_C12 (case obs: list N) : list N := acc_only obs.
 Definition count_ones (l: list N) : nat := length (filter (fun x => x =? 1) l).
 Definition ok_C12 (case obs: list N) : list N :=
   if negb (length obs =? 16)%nat then BAD
-  else if existsb (fun x => 1 <? x) obs then [40]                         (* a decoder crashed *)
   else if (1 <? count_ones obs)%nat then [41]                              (* two kinds accept the same packet *)
   else match case with
        | 1 :: rest => match event_of rest with
